@@ -376,6 +376,13 @@ THOROUGH = [
 ]
 
 
+# the thorough tier is a superset: every quick family it does not enlarge runs as it is
+_enlarged = {f[0] for f in THOROUGH}
+THOROUGH = ([f for f in THOROUGH if f[2] is None]
+            + [f for f in QUICK if f[0] not in _enlarged and f[0] not in NOSTRICT and f[2] is None]
+            + [f for f in THOROUGH if f[2] is not None])
+
+
 def main(tier, replay=None):
     t0 = time.time()
     if replay:
